@@ -2,10 +2,13 @@
 
 Explicit-state search on the real `nemoguardrails.streaming.StreamingHandler`.
 
-  state       (offset into the text, snapshot of every plain field of the handler
-              [prefix, suffix, stop, current_chunk, completion, finished flag, first_token ...],
-              what the consumer has been given so far [concatenation of queued items up to the
-              first None/"" sentinel, sentinel seen, anything queued after the sentinel])
+  state       (offset into the text,
+               snapshot of every plain field of the handler [prefix, suffix, stop, current_chunk,
+               completion, finished flag, first_token, buffer ...],
+               what the consumer has been given so far [concatenation of the queued items up to the
+               first None/"" sentinel, sentinel seen, anything queued after the sentinel],
+               two explanatory monitor labels [where completion first differed from the delivered
+               text; where text that may still have to be withheld was first delivered])
   transition  deliver text[i:j] (any 1..n next characters) as ONE chunk through the real coroutine
               (`push_chunk(str)` / `on_llm_new_token(tok, chunk=GenerationChunk|ChatGenerationChunk)`),
               stepped by hand: the coroutines never suspend on the unbounded queue; in pipe mode the
@@ -17,17 +20,26 @@ Explicit-state search on the real `nemoguardrails.streaming.StreamingHandler`.
               Texts are walked as a trie (depth first), so the S_i of a common prefix are shared.
   oracle      per (text, config, mode, end protocol): the set of terminal `delivered` strings is a
               singleton; every terminal `completion` equals its `delivered`; the delivered string is one
-              of the readings of "prefix and suffix removed, cut at the first stop sequence" (all orders
-              of the three operations; no demand when the text does not start with the prefix).
-  binding     a deterministic subset of DAG paths, and every path used in a reported violation, is
+              of the readings of "prefix and suffix removed, cut at the first stop sequence" (the three
+              operations in every order; nothing is demanded when the text does not start with the
+              prefix).  Whether the stream is terminated by a sentinel is counted, not demanded.
+  space       18 configs (prefix in {-, '  "', 'Bot message: "'} x suffix in {-, '"'} x stop in {[], ['"\n'],
+              ['\nuser ']}) x 3 modes (direct push_chunk / LangChain callbacks / LangChain callbacks on a
+              handler piped into a second one) x 2 end protocols each; texts = every character-prefix of
+              every sequence of <= n symbols over {a, ", blank[, newline][, 'user ']}, free and behind the
+              configured prefix (n: see bound()), plus every character-prefix of the realistic SHAPES.
+  classes     a violation's signature is  kind : where-it-first-went-wrong ; the second part comes from two
+              monitors that ride along in the state (first call after which completion != delivered;
+              first call that delivered text the handler might still have had to withhold) - it only
+              names the class, it never decides.
+  binding     a deterministic subset of DAG paths, and every path shown in a reported violation, is
               replayed from scratch (fresh handler, real asyncio loop, real `async for` consumer) and
-              must give the same observation as the snapshot/restore search.
+              must give the same observation as the snapshot/restore search (else: harness error).
 """
 from __future__ import annotations
 
 import asyncio
 import itertools
-import os
 import time
 import zlib
 
@@ -44,7 +56,7 @@ ENDS = {
     "pipe": ("llm_end", "empty_token+llm_end"),
 }
 
-# realistic shapes (every character-prefix of each of them is checked as a text of its own)
+# realistic shapes (every non-empty character-prefix of each of them is checked as a text of its own)
 SHAPES = (
     '  "Hello there!"',
     '  "Hello there!"\nuser "Hi"\n',
@@ -65,10 +77,10 @@ def configs():
 
 def alphabet(cfg):
     """Symbols the texts of a configuration are built from: a neutral letter, the quote and the
-    blank (prefix / suffix characters), newline when a stop sequence is configured, and a macro
-    symbol `user ` (completes the stop sequence `\\nuser `, too long to be spelled).
-    With a prefix configured there are two text families: free texts (the prefix is absent or only
-    partly there) and  prefix + free text."""
+    blank (prefix / suffix characters), newline when a stop sequence is configured, and the macro
+    symbol `user ` (it completes the stop sequence `\\nuser `, which is too long to be spelled).
+    With a prefix configured there are two text families: free texts (prefix absent or only partly
+    there) and  prefix + free text."""
     prefix, suffix, stop = cfg
     syms = ["a", '"', " "]
     if stop:
@@ -87,13 +99,23 @@ def check_alphabet(syms):
             assert m[0] not in singles and m[0] not in others, (m, syms)
 
 
-def bound(tier, k, free_with_prefix=False):
-    """max number of symbols per text (after the prefix, in the prefixed family), by alphabet size."""
+def bound(tier, k, family="free", mode="direct"):
+    """max number of symbols per text, by alphabet size.  family: "free" (no prefix configured),
+    "absent" (free texts while a prefix is configured), "short" / "long" (symbols after the prefix).
+    The pipe mode (two handlers per state) is explored one symbol less deep."""
     if tier == "quick":
-        n = {3: 9, 4: 7, 5: 6}[k]
+        n = {3: 8, 4: 6, 5: 5}[k]
     else:
-        n = {3: 11, 4: 9, 5: 8}[k]
-    return n - 2 if free_with_prefix else n
+        n = {3: 11, 4: 9, 5: 7}[k]
+    return n - {"free": 0, "short": 0, "long": 1, "absent": 2}[family] - (1 if mode == "pipe" else 0)
+
+
+def families(cfg, tier, mode):
+    k = len(alphabet(cfg))
+    if not cfg[0]:
+        return [("", bound(tier, k, "free", mode))]
+    return [("", bound(tier, k, "absent", mode)),
+            (cfg[0], bound(tier, k, "short" if len(cfg[0]) <= 3 else "long", mode))]
 
 
 def cfg_name(cfg):
@@ -114,8 +136,8 @@ def cfg_shape(cfg):
 # ------------------------------------------------------------------ reference
 def readings(text, cfg):
     """Every reading of 'prefix and suffix removed and cut at the first stop sequence': the three
-    operations in every order.  None inside the result = the text does not start with the prefix in
-    that order (nothing is demanded then)."""
+    operations in every order.  None in the result = in that order the text does not start with the
+    prefix (nothing is demanded then)."""
     prefix, suffix, stop = cfg
     ops = []
     if prefix:
@@ -220,12 +242,20 @@ def lib():
 
 _EV = "\x00ev"
 _LS = "\x00ls"
+_TP = "\x00tp"
 _SKIP = ("uid", "queue", "pipe_to")
+
+# state = (snapshot, delivered, ended, late, monitor labels[, snapshot of the receiving handler])
+S_SNAP, S_DELIV, S_ENDED, S_LATE, S_MON, S_OUTER = range(6)
+NO_LABELS = (None, None)
 
 
 class Rig:
     """One or two real StreamingHandler objects whose plain fields are saved / restored around every
-    single call, so any reachable handler state can be continued with any next chunk."""
+    single call, so any reachable handler state can be continued with any next chunk.
+
+    snapshot = (key-set id, value of every attribute in the handler's __dict__ except uid / queue /
+    pipe_to; Events as their flag, lists as tuples).  A field of any other type is a harness error."""
 
     def __init__(self, cfg, mode):
         L = lib()
@@ -238,36 +268,61 @@ class Rig:
             self.outer = L["SH"]()
             self.h.set_pipe_to(self.outer)
         self._chunks = {}
-        self._nkeys = None
+        self._keysets = []
+        self._index = []
+        self._nd = -1
+        self._kid = -1
+        self._keys = ()
         self.calls = 0
 
     # ---- snapshots
+    def _rekey(self, d):
+        keys = tuple(sorted(k for k in d if k not in _SKIP))
+        if keys not in self._keysets:
+            self._keysets.append(keys)
+            self._index.append({k: n + 1 for n, k in enumerate(keys)})
+        self._kid = self._keysets.index(keys)
+        self._keys = keys
+        self._nd = len(d)
+
     def _snap(self, h):
-        out = []
-        for k, v in sorted(h.__dict__.items()):
-            if k in _SKIP:
-                continue
-            tv = type(v)
-            if tv is str or v is None or tv is bool or tv is int:
-                out.append((k, v))
-            elif tv is list or tv is tuple:
-                out.append((k, (_LS, tv is list, tuple(v))))
-            elif isinstance(v, asyncio.Event):
-                out.append((k, (_EV, v.is_set())))
-            else:
-                raise RuntimeError(f"HARNESS: handler field {k!r} of type {tv.__name__} cannot be snapshotted")
+        d = h.__dict__
+        if len(d) != self._nd:
+            self._rekey(d)
+        out = [self._kid]
+        try:
+            for k in self._keys:
+                v = d[k]
+                tv = type(v)
+                if tv is str or v is None or tv is bool or tv is int:
+                    out.append(v)
+                elif tv is list:
+                    out.append((_LS, tuple(v)))
+                elif tv is tuple:
+                    out.append((_TP, v))
+                elif isinstance(v, asyncio.Event):
+                    out.append((_EV, v.is_set()))
+                else:
+                    raise RuntimeError(f"HARNESS: handler field {k!r} of type {tv.__name__} cannot be snapshotted")
+        except KeyError:
+            self._rekey(d)
+            return self._snap(h)
         return tuple(out)
 
     def _restore(self, h, snap):
         d = h.__dict__
-        if len(d) != len(snap) + len(_SKIP):
-            keep = {k for k, _ in snap}
+        keys = self._keysets[snap[0]]
+        if len(d) != len(keys) + len(_SKIP):
             for k in list(d):
-                if k not in keep and k not in _SKIP:
+                if k not in keys and k not in _SKIP:
                     del d[k]
-        for k, v in snap:
+        n = 1
+        for k in keys:
+            v = snap[n]
+            n += 1
             if type(v) is tuple:
-                if v[0] is _EV or v[0] == _EV:
+                tag = v[0]
+                if tag == _EV:
                     ev = d.get(k)
                     if not isinstance(ev, asyncio.Event):
                         ev = d[k] = asyncio.Event()
@@ -275,10 +330,16 @@ class Rig:
                         ev.set()
                     else:
                         ev.clear()
+                elif tag == _LS:
+                    d[k] = list(v[1])
                 else:
-                    d[k] = list(v[2]) if v[1] else tuple(v[2])
+                    d[k] = v[1]
             else:
                 d[k] = v
+
+    def field(self, snap, name):
+        pos = self._index[snap[0]].get(name)
+        return None if pos is None else snap[pos]
 
     @staticmethod
     def _drain(h):
@@ -288,26 +349,10 @@ class Rig:
             items.append(q.get_nowait())
         return items
 
-    def _pack(self, delivered, ended, late):
-        target = self.outer if self.outer is not None else self.h
-        if self.outer is not None:
-            self._drain(self.h)
-        for it in self._drain(target):
-            if ended:
-                if it is not None and it != "":
-                    late = True
-            elif it is None or it == "":
-                ended = True
-            else:
-                delivered += it if isinstance(it, str) else repr(it)
-        if self.outer is not None:
-            return (self._snap(self.h), delivered, ended, late, self._snap(self.outer))
-        return (self._snap(self.h), delivered, ended, late)
-
     def _load(self, state):
-        self._restore(self.h, state[0])
+        self._restore(self.h, state[S_SNAP])
         if self.outer is not None:
-            self._restore(self.outer, state[4])
+            self._restore(self.outer, state[S_OUTER])
             self.h.pipe_to = self.outer
 
     def _run(self, coro, where):
@@ -315,7 +360,6 @@ class Rig:
 
         self.calls += 1
         loop = self.loop
-        loop.ready.clear()
         events._set_running_loop(loop)
         try:
             _step(coro)
@@ -331,7 +375,74 @@ class Rig:
             events._set_running_loop(None)
             for c in loop.ready:
                 c.close()
-            loop.ready.clear()
+            del loop.ready[:]
+
+    def _after(self, pre, chunk, is_end):
+        """collect what the call queued, snapshot, update the monitor labels"""
+        delivered, ended, late = pre[S_DELIV], pre[S_ENDED], pre[S_LATE]
+        target = self.outer if self.outer is not None else self.h
+        if self.outer is not None:
+            self._drain(self.h)
+        for it in self._drain(target):
+            if ended:
+                if it is not None and it != "":
+                    late = True
+            elif it is None or it == "":
+                ended = True
+            else:
+                delivered += it if isinstance(it, str) else repr(it)
+        snap = self._snap(self.h)
+        mon = pre[S_MON]
+        if mon[0] is None or mon[1] is None:
+            mon = self._monitor(pre, snap, delivered, chunk, is_end, mon)
+        if self.outer is not None:
+            return (snap, delivered, ended, late, mon, self._snap(self.outer))
+        return (snap, delivered, ended, late, mon)
+
+    def _monitor(self, pre, snap, delivered, chunk, is_end, mon):
+        """Explanatory only (never decides a violation): names the call after which
+          [0] completion first differed from the delivered text, and
+          [1] text was first delivered that the handler may still have to withhold (it ends with the
+              suffix or with the beginning of a stop sequence, or contains a stop sequence)."""
+        l1, l2 = mon
+        f = self.field
+        psnap = pre[S_SNAP]
+        suffix, stop = self.cfg[1], self.cfg[2]
+        if is_end:
+            site = "end-with-prefix-pending" if f(psnap, "prefix") else ("end-flush" if f(psnap, "current_chunk") else "end")
+        elif f(psnap, "prefix"):
+            site = "prefix-branch"
+        elif f(psnap, "suffix") or stop:
+            site = "pattern-branch"
+        else:
+            site = "plain-branch"
+        if l1 is None:
+            comp = f(snap, "completion")
+            if comp != delivered:
+                if not isinstance(comp, str):
+                    how = "completion-not-a-string"
+                elif comp.startswith(delivered):
+                    how = "completion-ahead"
+                elif delivered.startswith(comp):
+                    how = "completion-behind"
+                else:
+                    how = "completion-differs"
+                seen = (f(psnap, "completion") or "") + (f(psnap, "current_chunk") or "") + (chunk or "")
+                hit = any(st in seen for st in stop)
+                l1 = f"{how}@stop-hit" if hit else f"{how}@{site}"
+        fin = f(snap, "streaming_finished_event")
+        if (l2 is None and not is_end and len(delivered) > len(pre[S_DELIV])
+                and not (type(fin) is tuple and fin[1])):  # what a call that finished the stream delivered is final
+            what = None
+            if any(st in delivered for st in stop):
+                what = "stop-sequence-delivered"
+            elif suffix and delivered.endswith(suffix):
+                what = "suffix-delivered-early"
+            elif any(delivered.endswith(st[:n]) for st in stop for n in range(1, len(st))):
+                what = "stop-fragment-delivered-early"
+            if what:
+                l2 = f"{what}@{site}"
+        return (l1, l2)
 
     # ---- the protocol
     def _token(self, text):
@@ -358,25 +469,24 @@ class Rig:
         fresh = L["SH"]()
         fresh.set_pattern(prefix=prefix, suffix=suffix)
         fresh.stop = list(stop)
-        base = self._snap(fresh)
-        init = (base, "", False, False)
+        init = (self._snap(fresh), "", False, False, NO_LABELS)
         if self.outer is not None:
             init = init + (self._snap(L["SH"]()),)
         out = {init: ()}
         if self.mode != "direct":
             self._load(init)
-            self._run(self._deliver(""), "on_llm_new_token")
-            s = self._pack("", False, False)
-            out.setdefault(s, ("",))
+            self._run(self._deliver(""), "on_llm_new_token('')")
+            out.setdefault(self._after(init, "", False), ("",))
         return out
 
     def step(self, state, chunk):
         self._load(state)
         self._run(self._deliver(chunk), "push_chunk" if self.mode == "direct" else "on_llm_new_token")
-        return self._pack(state[1], state[2], state[3])
+        return self._after(state, chunk, False)
 
     def finish(self, state, end):
-        """-> outcome (delivered, completion, ended, late[, outer completion])"""
+        """-> (outcome, labels);  outcome = (delivered, completion, consumer saw the end sentinel,
+        something queued after the sentinel[, completion of the receiving handler])"""
         self._load(state)
         if end == "push_empty":
             self._run(self.h.push_chunk(""), "push_chunk('')")
@@ -385,12 +495,14 @@ class Rig:
         else:
             if end == "empty_token+llm_end":
                 self._run(self._deliver(""), "on_llm_new_token('')")
+                state = self._after(state, "", True)
+                self._load(state)
             self._run(self.h.on_llm_end(lib()["RES"], run_id=None), "on_llm_end")
-        s = self._pack(state[1], state[2], state[3])
-        comp = dict(s[0]).get("completion")
+        s = self._after(state, "", True)
+        comp = self.field(s[S_SNAP], "completion")
         if self.outer is not None:
-            return (s[1], comp, s[2], s[3], dict(s[4]).get("completion"))
-        return (s[1], comp, s[2], s[3])
+            return (s[S_DELIV], comp, s[S_ENDED], s[S_LATE], self.field(s[S_OUTER], "completion")), s[S_MON]
+        return (s[S_DELIV], comp, s[S_ENDED], s[S_LATE]), s[S_MON]
 
 
 # ------------------------------------------------------------------ from-scratch replay on a real loop
@@ -410,9 +522,6 @@ async def _real(cfg, mode, chunks, end):
         async for ch in target:
             got.append(ch)
 
-    consumer = asyncio.create_task(consume())
-    await asyncio.sleep(0)
-
     def token(t):
         if mode == "pipe":
             return L["CGC"](message=L["AIC"](content=t))
@@ -424,33 +533,37 @@ async def _real(cfg, mode, chunks, end):
         else:
             await h.on_llm_new_token(t, chunk=token(t), run_id=None)
 
-    for c in chunks:
-        await deliver(c)
-    if end == "push_empty":
-        await h.push_chunk("")
-    elif end == "push_none":
-        await h.push_chunk(None)
-    else:
-        if end == "empty_token+llm_end":
-            await deliver("")
-        await h.on_llm_end(L["RES"], run_id=None)
-    # settle: piped tasks and the consumer run until nothing is runnable any more
-    me = asyncio.current_task()
-    for _ in range(10 * (len(chunks) + 4)):
-        before = (len(got), consumer.done())
-        for _ in range(3):
-            await asyncio.sleep(0)
-        others = [t for t in asyncio.all_tasks() if t is not me and t is not consumer and not t.done()]
-        if not others and before == (len(got), consumer.done()):
-            break
-    ended = consumer.done()
-    if not ended:
-        consumer.cancel()
-        try:
-            await consumer
-        except asyncio.CancelledError:
-            pass
-    elif consumer.exception() is not None:
+    consumer = asyncio.create_task(consume())
+    try:
+        await asyncio.sleep(0)
+        for c in chunks:
+            await deliver(c)
+        if end == "push_empty":
+            await h.push_chunk("")
+        elif end == "push_none":
+            await h.push_chunk(None)
+        elif end is not None:
+            if end == "empty_token+llm_end":
+                await deliver("")
+            await h.on_llm_end(L["RES"], run_id=None)
+        # settle: piped tasks and the consumer run until nothing is runnable any more
+        me = asyncio.current_task()
+        for _ in range(10 * (len(chunks) + 4)):
+            before = (len(got), consumer.done())
+            for _ in range(3):
+                await asyncio.sleep(0)
+            others = [t for t in asyncio.all_tasks() if t is not me and t is not consumer and not t.done()]
+            if not others and before == (len(got), consumer.done()):
+                break
+        ended = consumer.done()
+    finally:
+        if not consumer.done():
+            consumer.cancel()
+            try:
+                await consumer
+            except asyncio.CancelledError:
+                pass
+    if consumer.done() and not consumer.cancelled() and consumer.exception() is not None:
         raise consumer.exception()
     leftover = []
     while not target.queue.empty():
@@ -482,12 +595,22 @@ def outcome_of_real(r, mode):
     return o
 
 
-# ------------------------------------------------------------------ classification of a failure
-def _diff(got, want):
-    """how `got` deviates from `want` (both strings)"""
-    if got == want:
-        return "same"
+# ------------------------------------------------------------------ naming a failure class
+def _diff(got, want, cfg):
+    """how string `got` deviates from string `want`"""
+    prefix, suffix, stop = cfg
+    if not isinstance(got, str):
+        return "not-a-string"
     if got.startswith(want):
+        extra = got[len(want):]
+        if suffix and extra == suffix:
+            return "suffix-kept"
+        if any(st.startswith(extra) and st != extra for st in stop):
+            return "stop-fragment-kept"
+        if any(extra.startswith(st) for st in stop) or (suffix and any(extra.startswith(suffix + st) for st in stop)):
+            return "not-cut-at-stop"
+        if want.endswith(extra):
+            return "tail-duplicated"
         return "extra-tail"
     if want.startswith(got):
         return "tail-lost"
@@ -498,144 +621,103 @@ def _diff(got, want):
     return "differs"
 
 
-def landmarks(text, cfg):
-    """positions the chunk boundaries are described against"""
-    prefix, suffix, stop = cfg
-    lm = {}
-    body0 = 0
-    if prefix and text.startswith(prefix):
-        lm["pe"] = body0 = len(prefix)
-    cut = len(text)
-    if stop:
-        cuts = [text.find(s, 0) for s in stop if s in text]
-        # the stop sequence is looked for in the text after the prefix (what the handler accumulates)
-        cuts_b = [(text.find(s, body0), len(s)) for s in stop if text.find(s, body0) >= 0]
-        if cuts_b:
-            st, ln = min(cuts_b)
-            lm["st"] = st
-            lm["se"] = st + ln
-            cut = st
-        del cuts
-    if suffix and cut - len(suffix) >= body0 and text[:cut].endswith(suffix):
-        lm["sx"] = cut - len(suffix)
-    lm["cut"] = cut
-    return lm
-
-
-def edge_bits(i, j, lm):
-    """bitmask of chunk-shape facts for the chunk text[i:j]"""
-    b = 0
-    pe = lm.get("pe")
-    sx = lm.get("sx")
-    st = lm.get("st")
-    se = lm.get("se")
-    if pe is not None and i < pe:
-        if j > pe:
-            b |= 1  # A: the chunk that completes the prefix also carries later characters
-        if sx is not None and j > sx:
-            b |= 2  # B: ... including the closing suffix
-    if sx is not None and i <= sx < j and j > sx + 1:
-        b |= 4  # C: the closing suffix is followed by more characters in the same chunk
-    if st is not None:
-        if i <= st and j >= se:
-            b |= 8  # D: a whole stop sequence inside one chunk
-        if st < j < se:
-            b |= 16  # E: a chunk boundary inside the stop sequence
-        if j > se and i < se:
-            b |= 32  # F: characters after the stop sequence in the chunk that completes it
-        if i < st < j:
-            b |= 64  # G: characters before the stop sequence in the same chunk as its start
-    return b
-
-
-BIT_NAMES = (
-    (2, "suffix-in-chunk-completing-prefix"),
-    (1, "body-in-chunk-completing-prefix"),
-    (4, "suffix-followed-in-same-chunk"),
-    (8, "stop-inside-one-chunk"),
-    (16, "stop-split-over-chunks"),
-    (32, "text-after-stop-in-chunk-completing-stop"),
-    (64, "text-before-stop-in-chunk-starting-stop"),
-)
-
-
-def path_bits(chunks, text, cfg):
-    lm = landmarks(text, cfg)
-    pos = 0
-    bits = 0
-    for c in chunks:
-        if c == "":
-            continue
-        bits |= edge_bits(pos, pos + len(c), lm)
-        pos += len(c)
-    return bits
-
-
 # ------------------------------------------------------------------ explore one sub-trie
-def _witness(stack, text, j, state):
-    """a concrete chunk list reaching `state` at offset j (first one found, deterministic)"""
-    chunks = []
-    while True:
-        back = stack[j][state]
-        if j == 0:
-            return list(back) + chunks[::-1]
-        i, prev = back
-        chunks.append(text[i:j])
-        j, state = i, prev
-
-
 def explore(task):
     cfg, mode, lead, root, nmax, own_from, val_mod = task
     rig = Rig(cfg, mode)
     syms = alphabet(cfg)
     ends = ENDS[mode]
+    shape = cfg_shape(cfg)
     counts = {
         "states": 0, "transitions": 0, "terminals": 0, "texts": 0, "groups": 0,
-        "groups_outcome_merged_from_many_states": 0, "groups_divergent": 0,
+        "groups_with_merged_terminal_states": 0, "groups_divergent": 0,
         "chunkings_represented": 0, "max_states_per_offset": 0, "max_text_len": 0,
         "traces_validated_against_impl": 0, "texts_with_unique_reading": 0,
         "texts_prefix_absent": 0, "texts_ambiguous_reading": 0, "handler_exceptions": 0,
-        "groups_without_end_sentinel": 0,
+        "groups_without_end_sentinel": 0, "violating_groups": 0,
+        "texts_where_pattern_logic_acted": 0,
     }
-    viol = {}
+    viol = {}      # signature -> [size, what, replay, n]
     samples = []
-    # stack[j] = {state at offset j: back pointer (i, state at offset i)}; stack[0] = {initial state: lead chunks}
+    # stack[j] = {state at offset j: [(i, state at offset i) = how it was first reached, ... last reached]}
+    # stack[0] = {initial state: lead chunks};  fine[j] = the state of the one-character-per-chunk path
     textbox = [""]
     stack = [rig.initial_states()]
+    fine = [next(iter(stack[0]))]
 
-    def record(sig, what, rp, size):
+    def witness(j, state, text=None, which=0):
+        """a concrete chunk list reaching `state` at offset j: which=0 follows the first way each state
+        was reached (long chunks), which=1 the last way (short chunks); both deterministic"""
+        text = textbox[0] if text is None else text
+        chunks = []
+        while j > 0:
+            i, prev = stack[j][state][which]
+            chunks.append(text[i:j])
+            j, state = i, prev
+        return list(stack[0][state]) + chunks[::-1]
+
+    def confirm(chunks, end, outcome):
+        r = run_real(cfg, mode, chunks, end)
+        if outcome_of_real(r, mode) != outcome:
+            raise RuntimeError(
+                f"HARNESS: snapshot/restore search and from-scratch replay disagree for {cfg_name(cfg)} "
+                f"mode={mode} end={end} chunks={chunks!r}: search {outcome!r} replay {outcome_of_real(r, mode)!r}"
+            )
+        counts["traces_validated_against_impl"] += 1
+
+    n_parts = sum(1 for x in cfg if x)
+
+    def record(sig, size, make):
+        """keep the smallest / plainest case of each class; `make` builds (what, replay, [(chunks, end, outcome)..])"""
         cur = viol.get(sig)
-        if cur is None or size < cur[0]:
-            n = cur[3] if cur else 0
-            viol[sig] = [size, what, rp, n]
-        viol[sig][3] += 1
+        if cur is None:
+            cur = viol[sig] = [(1 << 30,), None, None, 0]
+        cur[3] += 1
+        size = (size, n_parts, MODES.index(mode), len(cfg[0] or ""))
+        if size < cur[0]:
+            what, rp, traces = make()
+            for chunks, end, outcome in traces:
+                confirm(chunks, end, outcome)
+            cur[0], cur[1], cur[2] = size, what, rp
+
+    def raised(e, chunks, end, text):
+        counts["handler_exceptions"] += 1
+        record(
+            f"exception:{shape}:{type(e.exc).__name__}@{e.where}",
+            len(text),
+            lambda: (
+                f"{e.where} raised {e} after chunks {chunks!r} of text {text!r} ({cfg_name(cfg)}, mode {mode})",
+                {"config": cfg_name(cfg), "mode": mode, "text": text, "end": end,
+                 "chunkings": [chunks], "expect": "no exception"},
+                [],
+            ),
+        )
 
     def push_char(ch, own):
         text = textbox[0] = textbox[0] + ch
         j = len(text)
         level = {}
         ntr = 0
+        nfine = None
         for i in range(j):
             c = text[i:j]
             for s in stack[i]:
                 try:
                     s2 = rig.step(s, c)
                 except HandlerRaised as e:
-                    counts["handler_exceptions"] += 1
                     if own:
-                        chunks = _witness(stack, text, i, s) + [c]
-                        record(
-                            f"exception:{type(e.exc).__name__}:{cfg_shape(cfg)}",
-                            f"{e.where} raised {e} while delivering {chunks!r} ({cfg_name(cfg)}, mode {mode})",
-                            {"config": cfg_name(cfg), "mode": mode, "text": text, "end": None,
-                             "chunkings": [chunks], "expect": "no exception"},
-                            len(text),
-                        )
+                        raised(e, witness(i, s, text) + [c], None, text)
                     continue
                 ntr += 1
-                if s2 not in level:
-                    level[s2] = (i, s)
+                back = level.get(s2)
+                if back is None:
+                    level[s2] = [(i, s), (i, s)]
+                else:
+                    back[1] = (i, s)
+                if i == j - 1 and s == fine[i]:
+                    nfine = s2
         stack.append(level)
+        fine.append(nfine)
         if own:
             counts["transitions"] += ntr
             counts["states"] += len(level)
@@ -645,6 +727,7 @@ def explore(task):
 
     def pop_to(n):
         del stack[n + 1:]
+        del fine[n + 1:]
         textbox[0] = textbox[0][:n]
 
     def check(j):
@@ -660,122 +743,148 @@ def explore(task):
             counts["texts_with_unique_reading"] += 1
         else:
             counts["texts_ambiguous_reading"] += 1
+        if None not in rd and text not in rd:
+            counts["texts_where_pattern_logic_acted"] += 1
         validate = val_mod and (zlib.crc32(repr((text, cfg, mode)).encode()) % val_mod == 0)
         for end in ends:
-            outcomes = {}
+            outcomes = {}   # outcome -> [(pre-end state, labels)]
             nst = 0
             for s in stack[j]:
                 try:
-                    o = rig.finish(s, end)
+                    o, lab = rig.finish(s, end)
                 except HandlerRaised as e:
-                    counts["handler_exceptions"] += 1
-                    chunks = _witness(stack, text, j, s)
-                    record(
-                        f"exception:{type(e.exc).__name__}:{cfg_shape(cfg)}",
-                        f"{e.where} raised {e} after {chunks!r} ({cfg_name(cfg)}, mode {mode})",
-                        {"config": cfg_name(cfg), "mode": mode, "text": text, "end": end,
-                         "chunkings": [chunks], "expect": "no exception"},
-                        len(text),
-                    )
+                    raised(e, witness(j, s), end, text)
                     continue
                 nst += 1
-                if o not in outcomes:
-                    outcomes[o] = s
+                lst = outcomes.get(o)
+                if lst is None:
+                    outcomes[o] = [(s, lab)]
+                else:
+                    lst.append((s, lab))
             counts["terminals"] += nst
             counts["groups"] += 1
             if nst > len(outcomes):
-                counts["groups_outcome_merged_from_many_states"] += 1
+                counts["groups_with_merged_terminal_states"] += 1
             if any(not o[2] for o in outcomes):
                 counts["groups_without_end_sentinel"] += 1
-            bad = judge(text, cfg, mode, end, outcomes, rd)
-            if validate or bad:
-                for o, s in outcomes.items():
-                    chunks = _witness(stack, text, j, s)
-                    r = run_real(cfg, mode, chunks, end)
-                    if outcome_of_real(r, mode) != o:
-                        raise RuntimeError(
-                            f"HARNESS: snapshot/restore search and from-scratch replay disagree for {cfg_name(cfg)} "
-                            f"mode={mode} end={end} chunks={chunks!r}: search {o!r} replay {outcome_of_real(r, mode)!r}"
-                        )
-                    counts["traces_validated_against_impl"] += 1
-                    if validate and len(samples) < 3 and j >= 4 and len(chunks) >= 2:
+            if validate:
+                for o, lst in outcomes.items():
+                    coarse = witness(j, lst[0][0])
+                    confirm(coarse, end, o)
+                    fine_ = witness(j, lst[-1][0], which=1)
+                    if fine_ != coarse:
+                        confirm(fine_, end, o)
+                    if len(samples) < 2 and j >= 4 and len(fine_) >= 3 and None not in rd and text not in rd:
                         samples.append({"config": cfg_name(cfg), "mode": mode, "end": end, "text": text,
-                                        "chunks": chunks, "delivered": o[0], "completion": o[1],
-                                        "states_per_offset": [len(fr) for fr in stack]})
-            for sig, what, rp in bad:
-                record(sig, what, rp, len(text))
+                                        "two_of_its_chunkings": [coarse, fine_], "delivered": o[0],
+                                        "completion": o[1], "consumer_saw_end_sentinel": o[2],
+                                        "outcomes_of_this_text": len(outcomes),
+                                        "distinct_states_per_offset": [len(fr) for fr in stack]})
+            if outcomes:
+                judge(text, j, end, outcomes, rd)
 
-    def judge(text, cfg, mode, end, outcomes, rd):
-        out = []
-        if not outcomes:
-            return out
-        j = len(text)
+    def judge(text, j, end, outcomes, rd):
         base = {"config": cfg_name(cfg), "mode": mode, "text": text, "end": end}
-        shape = cfg_shape(cfg)
+        size = len(text)
+        bad_group = False
         by_deliv = {}
-        for o, s in outcomes.items():
-            by_deliv.setdefault(o[0], (o, s))
-        want = None
-        if None not in rd and len(rd) == 1:
-            want = next(iter(rd))
+        for o, lst in outcomes.items():
+            by_deliv.setdefault(o[0], []).append((o, lst))
         if len(by_deliv) > 1:
             counts["groups_divergent"] += 1
-            # the expected string: the unique reading, else the delivered string closest to a reading,
-            # else the most frequent one
-            if want is not None and want in by_deliv:
-                exp = want
-            else:
-                cands = sorted(d for d in by_deliv if d in rd)
-                exp = cands[0] if cands else sorted(by_deliv)[0]
-            for d, (o, s) in sorted(by_deliv.items()):
+            bad_group = True
+            # the string to compare with: a delivered string that is a reading of the statement, else
+            # what the finest chunking (one character per chunk) delivers
+            cands = sorted(d for d in by_deliv if d in rd)
+            exp = None
+            if cands:
+                exp = cands[0]
+            elif fine[j] is not None:
+                for o, lst in outcomes.items():
+                    if any(s == fine[j] for s, _lab in lst):
+                        exp = o[0]
+            if exp is None:
+                exp = sorted(by_deliv)[0]
+            o_ok, s_ok = by_deliv[exp][0][0], by_deliv[exp][0][1][0][0]
+            for d in sorted(by_deliv):
                 if d == exp:
                     continue
-                chunks_bad = _witness(stack, text, j, s)
-                chunks_ok = _witness(stack, text, j, by_deliv[exp][1])
-                trig = trigger(text, cfg, chunks_bad, chunks_ok)
-                sig = f"chunking:{shape}:{_diff(d, exp)}:{trig}"
-                out.append((
-                    sig,
-                    f"text {text!r} with {cfg_name(cfg)} ({mode}, end={end}): chunks {chunks_ok!r} deliver {exp!r} "
-                    f"but chunks {chunks_bad!r} deliver {d!r}",
-                    dict(base, chunkings=[chunks_ok, chunks_bad], delivered=[exp, d],
-                         expect="the same delivered string for every chunking", readings=sorted(x for x in rd if x is not None)),
-                ))
+                seen = set()
+                for o_bad, lst in by_deliv[d]:
+                    for s_bad, lab in lst:
+                        why = lab[1] or lab[0] or (_diff(d, exp, cfg) + ":no-earlier-sign")
+                        if why in seen:
+                            continue
+                        seen.add(why)
+
+                        def make(d=d, o_bad=o_bad, s_bad=s_bad):
+                            c_ok, c_bad = witness(j, s_ok), witness(j, s_bad)
+                            return (
+                                f"text {text!r} with {cfg_name(cfg)} ({mode}, end={end}): chunks {c_ok!r} deliver "
+                                f"{exp!r} but chunks {c_bad!r} deliver {d!r}",
+                                dict(base, chunkings=[c_ok, c_bad], delivered=[exp, d],
+                                     expect="the same delivered string for every chunking",
+                                     readings=sorted(x for x in rd if x is not None)),
+                                [(c_ok, end, o_ok), (c_bad, end, o_bad)],
+                            )
+
+                        record(f"chunking:{why}", size, make)
         else:
             d = next(iter(by_deliv))
             if None not in rd and d not in rd:
-                o, s = by_deliv[d]
-                chunks = _witness(stack, text, j, s)
-                near = sorted(rd, key=lambda r: (_diff(d, r), r))[0]
-                sig = f"reference:{shape}:{_diff(d, near)}"
-                out.append((
-                    sig,
-                    f"text {text!r} with {cfg_name(cfg)} ({mode}, end={end}): every chunking delivers {d!r}, "
-                    f"no reading of the statement gives that (readings: {sorted(rd)!r})",
-                    dict(base, chunkings=[chunks], delivered=[d], expect=f"one of {sorted(rd)!r}", readings=sorted(rd)),
-                ))
-        for o, s in outcomes.items():
-            if o[1] != o[0]:
-                chunks = _witness(stack, text, j, s)
-                bits = path_bits(chunks, text, cfg)
-                sig = f"completion:{shape}:{_diff(o[1] if isinstance(o[1], str) else repr(o[1]), o[0])}:{bits_name(bits)}"
-                out.append((
-                    sig,
-                    f"text {text!r} with {cfg_name(cfg)} ({mode}, end={end}): chunks {chunks!r} deliver {o[0]!r} "
-                    f"but completion is {o[1]!r}",
-                    dict(base, chunkings=[chunks], delivered=[o[0]], completion=[o[1]],
-                         expect="completion == concatenation of delivered chunks"),
-                ))
-            if len(o) > 4 and o[4] != o[0]:
-                chunks = _witness(stack, text, j, s)
-                out.append((
-                    f"completion-piped:{shape}:{_diff(o[4] if isinstance(o[4], str) else repr(o[4]), o[0])}",
-                    f"text {text!r} with {cfg_name(cfg)} (pipe, end={end}): chunks {chunks!r}: the receiving handler "
-                    f"delivered {o[0]!r} but its completion is {o[4]!r}",
-                    dict(base, chunkings=[chunks], delivered=[o[0]], completion=[o[4]],
-                         expect="completion of the receiving handler == concatenation of delivered chunks"),
-                ))
-        return out
+                bad_group = True
+                near = sorted(rd, key=lambda r: (_diff(d, r, cfg) == "differs", abs(len(r) - len(d)), r))[0]
+                kind = _diff(d, near, cfg)
+                seen = set()
+                for o1, lst in by_deliv[d]:
+                    for s1, lab in lst:
+                        why = lab[1] or lab[0] or "no-earlier-sign"
+                        if why in seen:
+                            continue
+                        seen.add(why)
+
+                        def make(o1=o1, s1=s1):
+                            c1 = witness(j, s1)
+                            return (
+                                f"text {text!r} with {cfg_name(cfg)} ({mode}, end={end}): every chunking delivers {d!r}; "
+                                f"no reading of the statement gives that (readings: {sorted(rd)!r})",
+                                dict(base, chunkings=[c1], delivered=[d], expect=f"one of {sorted(rd)!r}",
+                                     readings=sorted(rd)),
+                                [(c1, end, o1)],
+                            )
+
+                        record(f"reference:{shape}:{kind}:{why}", size, make)
+        # completion == delivered, for every terminal state
+        for which, idx in (("completion", 1), ("completion-of-receiving-handler", 4)):
+            if idx == 4 and mode != "pipe":
+                continue
+            for o, lst in outcomes.items():
+                if o[idx] == o[0]:
+                    continue
+                bad_group = True
+                seen = set()
+                for s1, lab in lst:
+                    if idx == 1 and lab[0]:
+                        why = lab[0] + (":after-" + lab[1] if lab[1] and "behind" in lab[0] else "")
+                    else:
+                        why = _diff(o[idx], o[0], cfg) + ":no-earlier-sign"
+                    if why in seen:
+                        continue
+                    seen.add(why)
+
+                    def make(o=o, s1=s1, idx=idx, which=which):
+                        c1 = witness(j, s1)
+                        return (
+                            f"text {text!r} with {cfg_name(cfg)} ({mode}, end={end}): chunks {c1!r} deliver {o[0]!r} "
+                            f"but {which} is {o[idx]!r}",
+                            dict(base, chunkings=[c1], delivered=[o[0]], completion=[o[idx]],
+                                 expect=f"{which} == concatenation of the delivered chunks"),
+                            [(c1, end, o)],
+                        )
+
+                    record(f"{which}:{why}", size, make)
+        if bad_group:
+            counts["violating_groups"] += 1
 
     # ---- walk
     if root is None:
@@ -792,9 +901,8 @@ def explore(task):
         # texts of this family only when they cannot be spelled with the alphabet; the lead itself
         # belongs to the task without root symbols
         for n, ch in enumerate(lead):
-            part = lead[: n + 1]
             if n + 1 < len(lead):
-                own = (not root) and any(c not in alpha_chars for c in part)
+                own = (not root) and any(c not in alpha_chars for c in lead[: n + 1])
             else:
                 own = not root
             push_char(ch, own)
@@ -825,24 +933,6 @@ def explore(task):
     ], "samples": samples, "calls": rig.calls}
 
 
-def bits_name(bits):
-    names = [n for b, n in BIT_NAMES if bits & b]
-    return "+".join(names) or "any-chunking"
-
-
-def trigger(text, cfg, chunks_bad, chunks_ok):
-    """chunk-shape facts present in the deviating chunking and absent from the conforming one"""
-    b = path_bits(chunks_bad, text, cfg)
-    g = path_bits(chunks_ok, text, cfg)
-    only = b & ~g
-    if only:
-        return bits_name(only)
-    missing = g & ~b
-    if missing:
-        return "without-" + bits_name(missing)
-    return "other-boundaries"
-
-
 # ------------------------------------------------------------------ tasks / run
 def tasks(tier):
     """(config, mode, lead, root symbols, max symbols, first owned root symbol, validation modulus)"""
@@ -851,11 +941,8 @@ def tasks(tier):
     split = 2 if tier == "quick" else 3
     for cfg in configs():
         syms = alphabet(cfg)
-        fams = [("", bound(tier, len(syms), free_with_prefix=bool(cfg[0])))]
-        if cfg[0]:
-            fams.append((cfg[0], bound(tier, len(syms))))
         for mode in MODES:
-            for lead, n in fams:
+            for lead, n in families(cfg, tier, mode):
                 sp = min(split, n)
                 # texts with fewer than `sp` symbols after the lead
                 out.append((cfg, mode, lead, (), sp - 1, 0, val_mod))
@@ -876,11 +963,14 @@ def run(rep, tier):
         import random
 
         random.Random(seed).shuffle(ts)  # order of work only
-    budget = 50 if tier == "quick" else 17 * 60
+    else:
+        # big sub-tries first
+        ts.sort(key=lambda t: -(len(alphabet(t[0])) ** max(0, t[4] - len(t[3] or ()))))
+    budget = 48 if tier == "quick" else 17 * 60
     deadline = time.time() + budget
     done = 0
     by_sig = {}
-    for res in par.pmap(explore, ts, chunksize=4, deadline=deadline):
+    for res in par.pmap(explore, ts, chunksize=2, deadline=deadline):
         done += 1
         rep.merge_counts(res["counts"])
         rep.add("handler_calls", res["calls"])
@@ -888,24 +978,33 @@ def run(rep, tier):
             rep.sample(s)
         for v in res["violations"]:
             cur = by_sig.get(v["signature"])
-            if cur is None or (v["size"], repr(v["replay"])) < (cur["size"], repr(cur["replay"])):
-                v["n"] += cur["n"] if cur else 0
+            if cur is None:
+                by_sig[v["signature"]] = v
+            elif (v["size"], repr(v["replay"])) < (cur["size"], repr(cur["replay"])):
+                v["n"] += cur["n"]
                 by_sig[v["signature"]] = v
             else:
                 cur["n"] += v["n"]
-    for sig in sorted(by_sig):
+    new = 0
+    for sig in sorted(by_sig, key=lambda s: (by_sig[s]["size"], s)):
         v = by_sig[sig]
-        rep.violation(sig, v["what"] + f"  [{v['n']} (text,end) groups in this class]", v["replay"])
+        if rep.violation(sig, v["what"] + f"  [{v['n']} (text, end) groups show this class]", v["replay"]):
+            new += 1
     cfgs = configs()
     rep.set("configs", len(cfgs))
     rep.set("modes", len(MODES))
     rep.set("tasks_planned", len(ts))
     rep.set("tasks_done", done)
-    rep.set("violation_classes", len(by_sig))
+    rep.set("violation_classes", {sig: {"groups": v["n"], "smallest": v["what"]} for sig, v in sorted(by_sig.items())})
+    rep.set("violation_classes_found", len(by_sig))
+    rep.set("violation_classes_not_in_known_findings", new)
     rep.set("bounds", {
-        "symbols_per_text_by_alphabet_size": {str(k): bound(tier, k) for k in (3, 4, 5)},
-        "symbols_per_free_text_when_a_prefix_is_configured": {str(k): bound(tier, k, True) for k in (3, 4, 5)},
-        "alphabets": {cfg_shape(c) + "|" + repr(c[0]) + "|" + repr(c[2]): alphabet(c) for c in cfgs},
+        "symbols_per_text_by_alphabet_size": {
+            fam: {str(k): bound(tier, k, fam) for k in (3, 4, 5)} for fam in ("free", "absent", "short", "long")},
+        "pipe_mode": "one symbol less than the table",
+        "families": "free: no prefix configured; absent: free texts while a prefix is configured; "
+                    "short/long: symbols after the prefix '  \"' / 'Bot message: \"'",
+        "alphabets": {repr(c): alphabet(c) for c in cfgs},
         "realistic_shapes": list(SHAPES),
         "end_protocols": {m: list(e) for m, e in ENDS.items()},
     })
@@ -915,14 +1014,19 @@ def run(rep, tier):
         rep.set("cap_hit", f"time budget {budget}s: {done}/{len(ts)} sub-tries (config x mode x first symbols) fully explored")
     rep.assumptions += [
         "texts: every character-prefix of every sequence of <= n symbols over the per-config alphabet (bounds.alphabets; "
-        "n by alphabet size in bounds.symbols_per_text_by_alphabet_size) plus every character-prefix of the realistic shapes; "
-        "chunkings: ALL splits of each text into non-empty chunks (merged DAG), plus an optional empty first token in the LangChain modes",
+        "n by family and alphabet size in bounds.symbols_per_text_by_alphabet_size) plus every character-prefix of the "
+        "realistic shapes; 'texts' counts (text, config, mode) triples; the shapes may repeat a few short texts of the trie",
+        "chunkings: ALL splits of each text into non-empty chunks (merged DAG; chunkings_represented = sum of 2^(len-1)), "
+        "plus an optional empty first token in the LangChain modes",
         "pattern / stop configured before the first chunk (set_pattern + .stop as in tests/test_streaming_handler.py); "
         "the mid-stream reconfiguration done by generation.py (buffering, then set_pattern, then stop) is not modelled",
-        "queued items are observed only the way __anext__ hands them out: concatenation up to the first None/'' sentinel; the handler never reads its own queue",
+        "queued items are observed only the way __anext__ hands them out: concatenation up to the first None/'' sentinel; "
+        "the handler never reads its own queue",
         "handler coroutines do not suspend (unbounded queue); create_task'ed pipe pushes run FIFO after the creating coroutine; "
         "bound to the implementation by from-scratch replays on a real asyncio loop with an `async for` consumer",
-        "enable_print / buffering (enable_buffer, wait_top_k_nonempty_lines) are off; whether the stream terminates is counted, not demanded",
+        "enable_print / buffering (enable_buffer, wait_top_k_nonempty_lines) are off; whether the stream is terminated by a "
+        "sentinel is counted (groups_without_end_sentinel), not demanded",
+        "a text whose prefix is absent has no reference string; only chunking independence and completion == delivered are demanded",
     ]
 
 
@@ -936,11 +1040,16 @@ def replay(rp):
     print(f"expected: {rp.get('expect')}")
     for chunks in rp["chunkings"]:
         try:
-            r = run_real(cfg, rp["mode"], chunks, rp.get("end") or "push_empty")
+            r = run_real(cfg, rp["mode"], chunks, rp.get("end"))
         except Exception as e:  # noqa
             print(f"  chunks {chunks!r}: raised {type(e).__name__}: {e}")
             continue
         print(f"  chunks {chunks!r}\n     delivered chunks {r['delivered_chunks']!r} = {r['delivered']!r}\n"
               f"     completion {r['completion']!r}  consumer finished={r['ended']}"
               + (f"  receiving handler completion {r['outer_completion']!r}" if rp["mode"] == "pipe" else ""))
+    if rp.get("delivered"):
+        print(f"recorded by the search: delivered {rp['delivered']!r}"
+              + (f" completion {rp['completion']!r}" if rp.get("completion") else ""))
+    if _RLOOP is not None:
+        _RLOOP.close()
     return 0
